@@ -214,6 +214,65 @@ impl ctap2::Authenticator for MockNoLb {
     }
 }
 
+/// An authenticator that overrides the *provided* dispatch methods: the generic `Rpc::call` must
+/// reach these overrides for every request, not a private copy of the default dispatch.
+#[derive(Default)]
+pub struct MockOverride {
+    pub inner: Mock,
+    pub dispatched2: u64,
+    pub dispatched1: u64,
+}
+
+impl ctap2::Authenticator for MockOverride {
+    fn get_info(&mut self) -> get_info::Response {
+        self.inner.get_info()
+    }
+    fn make_credential(&mut self, r: &make_credential::Request) -> ctap2::Result<make_credential::Response> {
+        self.inner.make_credential(r)
+    }
+    fn get_assertion(&mut self, r: &get_assertion::Request) -> ctap2::Result<get_assertion::Response> {
+        self.inner.get_assertion(r)
+    }
+    fn get_next_assertion(&mut self) -> ctap2::Result<get_assertion::Response> {
+        self.inner.get_next_assertion()
+    }
+    fn reset(&mut self) -> ctap2::Result<()> {
+        self.inner.reset()
+    }
+    fn client_pin(&mut self, r: &client_pin::Request) -> ctap2::Result<client_pin::Response> {
+        self.inner.client_pin(r)
+    }
+    fn credential_management(&mut self, r: &credential_management::Request) -> ctap2::Result<credential_management::Response> {
+        self.inner.credential_management(r)
+    }
+    fn selection(&mut self) -> ctap2::Result<()> {
+        self.inner.selection()
+    }
+    fn vendor(&mut self, op: ctap2::VendorOperation) -> ctap2::Result<()> {
+        self.inner.vendor(op)
+    }
+    fn large_blobs(&mut self, r: &large_blobs::Request) -> ctap2::Result<large_blobs::Response> {
+        self.inner.large_blobs(r)
+    }
+    fn call_ctap2(&mut self, _request: &ctap2::Request) -> ctap2::Result<ctap2::Response> {
+        self.dispatched2 += 1;
+        Err(ctap2::Error::VendorFirst)
+    }
+}
+
+impl ctap1::Authenticator for MockOverride {
+    fn register(&mut self, r: &ctap1::register::Request<'_>) -> ctap1::Result<ctap1::register::Response> {
+        ctap1::Authenticator::register(&mut self.inner, r)
+    }
+    fn authenticate(&mut self, r: &ctap1::authenticate::Request<'_>) -> ctap1::Result<ctap1::authenticate::Response> {
+        ctap1::Authenticator::authenticate(&mut self.inner, r)
+    }
+    fn call_ctap1(&mut self, _request: &ctap1::Request<'_>) -> ctap1::Result<ctap1::Response> {
+        self.dispatched1 += 1;
+        Err(ctap1::Error::UnspecifiedCheckingError)
+    }
+}
+
 /// What the dispatcher must do for a CTAP2 request: (handler name, expected Ok response).
 pub fn expected2(req: &ctap2::Request) -> Option<(&'static str, String, ctap2::Response)> {
     use ctap2::Request as Q;
